@@ -43,12 +43,36 @@ theorem windowDim_eq_mkDim (mn mx w pr : Option Nat) : windowDim mn mx w pr = mk
   rcases h : mkDim mn mx w pr with _ | d
   · rfl
   · have hv := mkDim_valid h
-    unfold mkDim at h ⊢
-    simp only at h ⊢
-    split_ifs at h with h1 h2 h3 h3 <;> simp only [Option.some.injEq] at h <;> subst h <;>
-      cases mn <;> cases mx <;> cases pr <;> cases w <;>
-      simp only [Option.getD, Option.map, Nat.min_def, Nat.max_def] at * <;>
-      (split_ifs <;> first | rfl | omega | (simp only [Option.some.injEq, Dim.mk.injEq]; omega))
+    unfold Dim.Valid at hv
+    -- the fields of `d` in terms of the arguments
+    have hd : d.min = mn.getD Gen.C12.defaultMin ∧ d.max = mx.getD Gen.C12.defaultMax ∧
+        d.weight = w.getD Gen.C12.defaultWeight ∧ (pr = none → d.pref = d.min) := by
+      unfold mkDim at h
+      simp only at h
+      split_ifs at h <;> simp only [Option.some.injEq] at h <;> subst h <;>
+        refine ⟨rfl, rfl, rfl, ?_⟩ <;> intro hp <;> subst hp <;>
+        simp only [Option.getD_none] at * <;> omega
+    obtain ⟨h1, h2, h3, h4⟩ := hd
+    have hmin : (mn.map fun _ => d.min).getD Gen.C12.defaultMin = d.min := by
+      cases mn <;> simp [h1]
+    have hmax : (mx.map fun _ => d.max).getD Gen.C12.defaultMax = d.max := by
+      cases mx <;> simp [h2]
+    have hclamp : clampSpec d.pref d mn mx = d.pref := by
+      unfold clampSpec
+      simp only [Nat.min_def, Nat.max_def]
+      split_ifs <;> omega
+    have hp : (pr.map fun _ => clampSpec d.pref d mn mx).getD d.min = d.pref := by
+      rw [hclamp]
+      cases pr with
+      | none => simp [h4]
+      | some v => simp
+    simp only
+    unfold mkDim
+    simp only [hmin, hmax, hp, Option.getD_some]
+    have a : ¬ d.max < d.min := by omega
+    have b : ¬ d.pref < d.min := by omega
+    have c : ¬ d.pref > d.max := by omega
+    simp only [if_neg a, if_neg b, if_neg c]
 
 theorem sumOf_le {f g : Dim → Nat} {dims : List Dim} (h : ∀ d ∈ dims, f d ≤ g d) :
     sumOf f dims ≤ sumOf g dims := by
@@ -67,9 +91,12 @@ theorem sumDims_eq {dims : List Dim} (hv : ValidDims dims) :
       Gen.C12.defaultWeight⟩ := by
   have h1 : sumOf (·.min) dims ≤ sumOf (·.pref) dims := sumOf_le fun d hd => (hv d hd).1
   have h2 : sumOf (·.pref) dims ≤ sumOf (·.max) dims := sumOf_le fun d hd => (hv d hd).2
+  have a : ¬ sumOf (·.max) dims < sumOf (·.min) dims := by omega
+  have b : ¬ sumOf (·.pref) dims < sumOf (·.min) dims := by omega
+  have c : ¬ sumOf (·.pref) dims > sumOf (·.max) dims := by omega
   unfold sumDims mkDim
   simp only [Option.getD_some, Option.getD_none]
-  rw [if_neg (by omega), if_neg (by omega), if_neg (by omega)]
+  rw [if_neg a, if_neg b, if_neg c]
 
 example : ValidDims [⟨0, 5, 9, 0⟩, ⟨1, 1, 1, 3⟩] := by
   intro d hd; simp at hd; rcases hd with rfl | rfl <;> simp [Dim.Valid]
@@ -161,11 +188,13 @@ theorem divide_ok_spec {dims : List Dim} (hv : ValidDims dims) {F avail : Nat} {
   unfold divide at h
   rw [sumDims_eq hv] at h
   simp only at h
-  split_ifs at h with hsmall
+  by_cases hsmall : sumOf (·.min) dims > avail
+  · rw [if_pos hsmall] at h; cases h
+  rw [if_neg hsmall] at h
   have havail : sumOf (·.min) dims ≤ avail := by omega
   rcases h1 : growSizes F (dims.map (·.pref)) (Nat.min avail (sumOf (·.pref) dims))
       (dims.map (·.min)) (childGenerators dims) with _ | ⟨s1, gens1⟩
-  · rw [h1] at h; simp at h
+  · rw [h1] at h; cases h
   rw [h1] at h
   simp only at h
   -- phase 1
@@ -178,10 +207,11 @@ theorem divide_ok_spec {dims : List Dim} (hv : ValidDims dims) {F avail : Nat} {
   have hcap1 := range_cap_sum (dims.map (·.min)) (dims.map (·.pref)) (by simp) col_mp
   rw [childGenerators_totalCap] at sum1
   simp only [List.length_map] at hcap1
+  have e1 : (dims.map (·.min)).sum = sumOf (·.min) dims := rfl
+  have e2 : (dims.map (·.pref)).sum = sumOf (·.pref) dims := rfl
+  have e3 : (dims.map (·.max)).sum = sumOf (·.max) dims := rfl
   have hs1 : s1.sum = Nat.min avail (sumOf (·.pref) dims) := by
     rw [sum1]
-    have e1 : (dims.map (·.min)).sum = sumOf (·.min) dims := rfl
-    have e2 : (dims.map (·.pref)).sum = sumOf (·.pref) dims := rfl
     simp only [Nat.min_def]; split_ifs <;> omega
   have s1_le_pref : ∀ i, s1.getD i 0 ≤ (dims.map (·.pref)).getD i 0 := by
     intro i; have := le1 i; have := col_mp i; omega
@@ -189,9 +219,9 @@ theorem divide_ok_spec {dims : List Dim} (hv : ValidDims dims) {F avail : Nat} {
   have s1_eq_pref : sumOf (·.pref) dims ≤ avail → s1 = dims.map (·.pref) := by
     intro hle
     apply eq_of_le_of_sum_eq _ _ (by simp [len1]) s1_le_pref
-    rw [hs1]
-    show _ = sumOf (·.pref) dims
+    rw [hs1, e2]
     simp only [Nat.min_def]; split_ifs <;> omega
+  unfold phase2 at h
   cases toMax with
   | false =>
     simp only [Bool.false_eq_true, if_false, Outcome.ok.injEq] at h
@@ -203,7 +233,7 @@ theorem divide_ok_spec {dims : List Dim} (hv : ValidDims dims) {F avail : Nat} {
     simp only [if_true] at h
     rcases h2 : growSizes F (dims.map (·.max)) (Nat.min avail (sumOf (·.max) dims)) s1 gens1
       with _ | ⟨s2, gens2⟩
-    · rw [h2] at h; simp at h
+    · rw [h2] at h; cases h
     rw [h2] at h
     simp only [Outcome.ok.injEq] at h
     subst h
@@ -218,7 +248,6 @@ theorem divide_ok_spec {dims : List Dim} (hv : ValidDims dims) {F avail : Nat} {
     rw [len1] at hcap2
     have hs2 : s2.sum = Nat.min avail (sumOf (·.max) dims) := by
       rw [sum2]
-      have e2 : (dims.map (·.max)).sum = sumOf (·.max) dims := rfl
       simp only [Nat.min_def]; split_ifs <;> omega
     refine ⟨havail, len2, fun i => le_trans (ge1 i) (ge2 i), ?_, ?_, ?_, ?_⟩
     · intro i; have := le2 i; have := s1_le_max i; omega
@@ -237,20 +266,31 @@ theorem divide_ok_spec {dims : List Dim} (hv : ValidDims dims) {F avail : Nat} {
 
 /-- **Too small**: `None` is returned exactly when the minimum sizes do not fit
     (for every fuel; the test precedes all loops). -/
+theorem phase2_ne (fuel : Nat) (dims : List Dim) (stop2 : Nat) (toMax : Bool) (sizes : List Nat)
+    (gens : List (List Nat × Gen)) :
+    phase2 fuel dims stop2 toMax sizes gens ≠ .tooSmall ∧
+    phase2 fuel dims stop2 toMax sizes gens ≠ .error := by
+  unfold phase2
+  cases toMax
+  · simp
+  · simp only [if_true]
+    generalize growSizes fuel (dims.map (·.max)) stop2 sizes gens = o
+    cases o <;> simp
+
 theorem tooSmall_iff {dims : List Dim} (hv : ValidDims dims) (F avail : Nat) (toMax : Bool) :
     divide F dims avail toMax = .tooSmall ↔ avail < sumOf (·.min) dims := by
   unfold divide
   rw [sumDims_eq hv]
   simp only
-  split_ifs with h
-  · simp; omega
-  · constructor
+  by_cases h : sumOf (·.min) dims > avail
+  · rw [if_pos h]; simp; omega
+  · rw [if_neg h]
+    constructor
     · intro h'
-      split at h'
-      · cases h'
-      · split_ifs at h'
-        · split at h' <;> cases h'
-        · cases h'
+      rcases h1 : growSizes F (dims.map (·.pref)) (Nat.min avail (sumOf (·.pref) dims))
+          (dims.map (·.min)) (childGenerators dims) with _ | r
+      · rw [h1] at h'; cases h'
+      · rw [h1] at h'; exact absurd h' (phase2_ne _ _ _ _ _ _).1
     · intro h'; omega
 
 /-- valid dimensions never make `sum_layout_dimensions` raise inside `divide` -/
@@ -259,13 +299,13 @@ theorem divide_no_error {dims : List Dim} (hv : ValidDims dims) (F avail : Nat) 
   unfold divide
   rw [sumDims_eq hv]
   simp only
-  intro h'
-  split_ifs at h'
-  split at h'
-  · cases h'
-  · split_ifs at h'
-    · split at h' <;> cases h'
-    · cases h'
+  by_cases h : sumOf (·.min) dims > avail
+  · rw [if_pos h]; simp
+  · rw [if_neg h]
+    rcases h1 : growSizes F (dims.map (·.pref)) (Nat.min avail (sumOf (·.pref) dims))
+        (dims.map (·.min)) (childGenerators dims) with _ | r
+    · rw [h1]; simp
+    · rw [h1]; exact (phase2_ne _ _ _ _ _ _).2
 
 /-- **Termination**: for every list of valid dimensions — weights may be 0, all of them may be
     0 — and every available size there is a fuel from which on the division finishes. -/
@@ -299,8 +339,10 @@ theorem divide_terminates {dims : List Dim} (hv : ValidDims dims) (avail : Nat) 
   simp only
   rw [if_neg hsmall, growSizes_mono _ _ (by omega : F1 ≤ F) _ _ _ hr1]
   simp only
-  rw [hr2]
-  split_ifs <;> simp
+  unfold phase2
+  cases toMax
+  · simp
+  · simp only [if_true]; rw [hr2]; simp
 
 /-- **The answer does not depend on the fuel**: once the division finishes it returns the same
     sizes for every larger fuel. -/
@@ -309,25 +351,28 @@ theorem divide_fuel_independent {dims : List Dim} {F F' avail : Nat} {toMax : Bo
     divide F' dims avail toMax = .ok sizes := by
   unfold divide at h ⊢
   rcases hsd : sumDims dims with _ | sd
-  · rw [hsd] at h; simp at h
+  · rw [hsd] at h; cases h
   rw [hsd] at h
   simp only at h ⊢
-  split_ifs at h ⊢ with hsmall
+  by_cases hsmall : sd.min > avail
+  · rw [if_pos hsmall] at h; cases h
+  rw [if_neg hsmall] at h ⊢
   rcases h1 : growSizes F (dims.map (·.pref)) (Nat.min avail sd.pref) (dims.map (·.min))
       (childGenerators dims) with _ | ⟨s1, gens1⟩
-  · rw [h1] at h; simp at h
+  · rw [h1] at h; cases h
   rw [h1] at h
   rw [growSizes_mono _ _ hF _ _ _ h1]
   simp only at h ⊢
+  unfold phase2 at h ⊢
   cases toMax with
-  | false => simpa using h
+  | false => exact h
   | true =>
     simp only [if_true] at h ⊢
     rcases h2 : growSizes F (dims.map (·.max)) (Nat.min avail sd.max) s1 gens1 with _ | ⟨s2, gens2⟩
-    · rw [h2] at h; simp at h
+    · rw [h2] at h; cases h
     rw [h2] at h
     rw [growSizes_mono _ _ hF _ _ _ h2]
-    simpa using h
+    exact h
 
 /-- **Totality**: the division of valid dimensions has exactly one answer, `None` or a list of
     sizes, reached for all sufficiently large fuels. -/
@@ -436,7 +481,7 @@ theorem allChildren_valid {al : Align} {filler pad : Dim} {children : List Dim}
   unfold allChildren at hd
   simp only [List.mem_append] at hd
   rcases hd with hd | hd
-  · have hd' := List.mem_of_mem_dropLast hd
+  · have hd' := (List.dropLast_sublist _).subset hd
     simp only [List.mem_append, List.mem_flatMap] at hd'
     rcases hd' with hd' | ⟨c, hc', hd'⟩
     · split_ifs at hd' <;> simp at hd'; subst hd'; exact hf
@@ -488,6 +533,26 @@ theorem offsets_getD (start : Nat) (sizes : List Nat) (k : Nat) (hk : k < sizes.
       rw [ih (start + s) k (by simpa using hk)]
       omega
 
+theorem sum_take_succ' (l : List Nat) (k : Nat) (hk : k < l.length) :
+    (l.take (k + 1)).sum = (l.take k).sum + l.getD k 0 := by
+  induction l generalizing k with
+  | nil => simp at hk
+  | cons a l ih =>
+    cases k with
+    | zero => simp
+    | succ k =>
+      simp only [List.take_succ_cons, List.sum_cons, List.getD_cons_succ]
+      rw [ih k (by simpa using hk)]
+      omega
+
+theorem sum_take_le (l : List Nat) (k : Nat) : (l.take k).sum ≤ l.sum := by
+  induction l generalizing k with
+  | nil => simp
+  | cons a l ih =>
+    cases k with
+    | zero => simp
+    | succ k => simp only [List.take_succ_cons, List.sum_cons]; have := ih k; omega
+
 /-- **Adjacent, disjoint, in order, inside the split**: the regions handed to the children tile
     `[start, start + Σ sizes)` from left to right (top to bottom) without gap or overlap; the
     rest `[start + Σ sizes, start + avail)` goes to the remaining-space window. -/
@@ -513,14 +578,9 @@ theorem layout_adjacent (start avail : Nat) (sizes : List Nat) (hfit : sizes.sum
     simp only [List.getElem?_zip_eq_some, hk, hk', List.getElem?_eq_getElem, Option.getD_some] at h1 ⊢
     rw [List.getElem?_eq_getElem (by simp [offsets_length, hk])]
     simp [h1]
-  have htake : ∀ k, k < sizes.length → (sizes.take (k + 1)).sum = (sizes.take k).sum + sizes.getD k 0 := by
-    intro k hk
-    rw [List.sum_take_succ sizes k hk, List.getD_eq_getElem?_getD]
-    simp [hk]
-  have hle : ∀ k, k ≤ sizes.length → (sizes.take k).sum ≤ sizes.sum := by
-    intro k _
-    have := List.sum_take_add_sum_drop sizes k
-    omega
+  have htake : ∀ k, k < sizes.length → (sizes.take (k + 1)).sum = (sizes.take k).sum + sizes.getD k 0 :=
+    fun k hk => sum_take_succ' sizes k hk
+  have hle : ∀ k, k ≤ sizes.length → (sizes.take k).sum ≤ sizes.sum := fun k _ => sum_take_le sizes k
   simp only [layout]
   refine ⟨by simp [offsets_length], ?_, ?_, ?_, ?_⟩
   · intro k hk; rw [hreg k hk]; exact ⟨rfl, rfl⟩
